@@ -82,6 +82,9 @@ Oracle calibration (weaker reading taken wherever the statement leaves latitude)
     hardware fault only; once a set_control_active override has raised in the history, that clause is dropped (frappy
     leaves the output naming the newcomer whose activation failed).  Violations introduced by an operation that raised
     carry ':failed' in the signature.
+  * a struct in error state is not compared with its members (see above), but it must follow them: after a successful
+    operation on one member that was published, a struct without combined methods must not stay in error state
+    (otherwise "agree" could be satisfied by a struct that never shows anything).
   * hardware refusals: the generated driver refuses one marker value (member i == 13) with HardwareError and can be
     switched to fail reads (thorough tier): "every history of reads, writes and updates" includes failing ones.
 """
@@ -291,7 +294,8 @@ class StructModel(Model):
         self.hwkind = hwkind = s.get('hw', 'exact')
 
         def mk(m):
-            kw = {'default': DEFAULTS[m]} if defaults else {}
+            # member start values different from the datatype default: given in the class (True) or by cfg ('cfg')
+            kw = {'default': DEFAULTS[m]} if defaults is True else {}
             return Parameter(f'member {m}', IntRange(0, 100) if m == 'i' else FloatRange(), **kw)
 
         ns = {sname: StructParam('generated struct', {m: mk(m) for m in members}, prefix, readonly=readonly),
@@ -364,6 +368,14 @@ class StructModel(Model):
         else:
             for m in members:
                 ops.append(['d', 'a', m, 1])
+        if defaults:
+            # events carrying the value a never initialised struct shows (the datatype default 0)
+            for m in members:
+                ops.append(['c', 'w', m, 0])
+                if not self.combined:
+                    ops.append(['d', 'a', m, 0])
+                if self.hwread:
+                    ops.append(['e', 'hw', m, 0])
         if self.hwread:
             for m in members:
                 ops.append(['e', 'hw', m])
@@ -371,6 +383,13 @@ class StructModel(Model):
             # quick: the separate-method layouts with 2 members only
             if core.TIER == 'thorough' or (not self.combined and n == 2):
                 ops.append(['e', 'fail', 'S' if self.combined else members[0]])
+
+    def cfg(self):
+        cfg = {'cls': self.cls}
+        if self.spec['defaults'] == 'cfg':
+            for m in self.members:
+                cfg[self.pname[m]] = {'value': DEFAULTS[m]}
+        return {'m': cfg}
 
     def init_world(self, world):
         mod = world.mods['m']
@@ -396,7 +415,7 @@ class StructModel(Model):
         who, what, target = op[0], op[1], op[2]
         if who == 'e':
             if what == 'hw':
-                mod._hw[target] = _conv(target, 3)
+                mod._hw[target] = _conv(target, op[3] if len(op) > 3 else 3)
             else:
                 mod._fail = frozenset() if target in mod._fail else frozenset([target])
             return ['ok', None, None]
@@ -454,6 +473,15 @@ class StructModel(Model):
                 break   # one member is enough for a report
             if found:
                 break   # stream is reported only when the cache itself is consistent
+        # the struct follows its members: in a layout without combined methods a successful operation on ONE member that
+        # changed what this member shows (value, error state or first announcement - so it was published and the callbacks
+        # ran) must not leave the struct in error state
+        if not found and pre is not None and op and not self.combined and op[0] != 'e' and op[2] != 'S' and res[0] == 'ok':
+            mkey = f'm:{self.pname[op[2]]}'
+            if post[mkey][1] is None and post[mkey] != pre[mkey] and post[skey][1] is not None:
+                found.append((f'struct:sep:cache:struct-left-in-error-state-by-member-event:after-{self.opclass(op)}',
+                              f'member {self.pname[op[2]]} went from {pre[mkey][:2]!r} to {post[mkey][:2]!r} and was published, '
+                              f'but the struct {self.sname} still shows {post[skey][1]} (cached {post[skey][0]!r})'))
         return found
 
 
@@ -477,6 +505,11 @@ def struct_specs(tier):
     ]
     if tier == 'thorough':
         rows += [(3, k, ro, df, pf) for (n, k, ro, df, pf) in rows if n == 2]
+    # member start values by configuration; with class-level start values in more layouts
+    rows += [(2, 'sep-all', False, 'cfg', ''), (2, 'comb-rw', False, 'cfg', ''), (2, 'sep-part', False, True, '')]
+    if tier == 'thorough':
+        rows += [(n, k, False, df, '') for n in (2, 3) for k in ('comb-r', 'comb-w', 'sep-part', 'sep-none', 'sep-all', 'comb-rw')
+                 for df in (True, 'cfg') if (n, k, False, df, '') not in rows and (n, k, False, df, 'k_') not in rows]
     rows = [r + ('exact',) for r in rows]
     # the same layouts on hardware that alters what it is given (0.5 grid, p clamped): every layout with a write method
     grid = [(2, 'comb-rw', False, False, ''), (2, 'comb-w', False, False, ''), (2, 'sep-all', False, False, '')]
